@@ -1,6 +1,7 @@
 import Balm.Impl.Control
 import Balm.Impl.Strict
 import Balm.Impl.Solver
+import Balm.Impl.Asp
 /-!
 # `balmdriver` – line protocol between the Python harness and the Lean model
 
@@ -234,6 +235,33 @@ def handle (S : Session) (toks : List String) : Session × String :=
         | _ => none) with
     | some e, some tl => (S, verdict (faithfulOnB N e tl))
     | _, _ => bad
+  | "ASP" :: pr :: ens :: srcs :: rest =>
+    let avoidT := rest.takeWhile (· ≠ "||")
+    let transT := (rest.dropWhile (· ≠ "||")).drop 1
+    match parseSpace n ens, parseSpaces n avoidT, transT.mapM (fun (t : String) => match t.splitOn ":" with
+        | [v, d, c] => (do
+            let v ← v.toNat?
+            let c ← parseSpace n c
+            if h : v < n then pure ({ v := ⟨v, h⟩, up := d == "up", c := c } : Trans n) else none)
+        | _ => none) with
+    | some e, some av, some tl =>
+      let sl : List (Fin n) := if srcs == "-" then [] else
+        (srcs.splitOn ",").filterMap fun x => x.toNat?.bind fun k => if h : k < n then some ⟨k, h⟩ else none
+      let prb := if pr == "min" then Problem.min else if pr == "max" then Problem.max else Problem.fix
+      (S, String.intercalate " | " (renderProgram (trapProgram tl prb e av sl)))
+    | _, _, _ => bad
+  | "FPASP" :: ret :: ens :: rest =>
+    let avoidT := rest.takeWhile (· ≠ "||")
+    let transT := (rest.dropWhile (· ≠ "||")).drop 1
+    match parseSpace n ret, parseSpace n ens, parseSpaces n avoidT, transT.mapM (fun (t : String) => match t.splitOn ":" with
+        | [v, d, c] => (do
+            let v ← v.toNat?
+            let c ← parseSpace n c
+            if h : v < n then pure ({ v := ⟨v, h⟩, up := d == "up", c := c } : Trans n) else none)
+        | _ => none) with
+    | some r, some e, some av, some tl =>
+      (S, String.intercalate " | " (renderProgram (fpProgram (reducePN tl r) e av)))
+    | _, _, _, _ => bad
   | "ADOPT" :: rest => match parseDump n rest with
     | some d => ({ S with diag := d.toDiag }, "OK")
     | none => bad
